@@ -138,14 +138,15 @@ def common_spec(rng, tier, controls=True):
 # ------------------------------------------------------------------------------------------------
 def epanet_clean(tr):
     """EPANET ran without the conditions under which its results are not a reference: unbalanced steps, disconnected nodes
-    (reported with pressures of about -1e6), negative-pressure warnings."""
+    (reported with pressures of about -1e6).  Plain negative pressures are a valid demand-driven solution in both engines
+    (swept over seeds 0-14 with them admitted: no additional disagreement) and stay in."""
     if not tr.ok:
         return False
     w = ' '.join(tr.warnings).lower()
-    if any(k in w for k in ('unbalanced', 'negative pressure', 'disconnected', 'cannot', 'error')):
+    if any(k in w for k in ('unbalanced', 'disconnected', 'cannot', 'error')):
         return False
     try:
-        if float(tr.results.node['pressure'].min().min()) < -1.0:      # EPANET warns about negative pressures: its heads are then not a reference
+        if float(tr.results.node['pressure'].min().min()) < -1000.0:       # disconnected nodes are reported with about -1e6
             return False
     except Exception:
         return False
